@@ -38,6 +38,9 @@ def model(chk, p):
         chk.model("Session %s" % name, t, "regression: deviation rejected (expected)")
 
 
+CAST_TARGETS = ["m", "km", "kg", "g", "s", "h", "W", "J", "ft", "lb", "m/s", "km/h", "m^2", "km^3", "kg/m^3", "au", "ly", "K", "nosuchunit"]
+
+
 def generate(rnd, phrases, n):
     units = ["m", "km", "s", "kg", "W", "J", "h"]
     out = []
@@ -73,6 +76,23 @@ def generate(rnd, phrases, n):
             s = s + rnd.choice([" / 0", " + 1 s + 1 m", " to nosuchunit"])        # fails after its lookups succeeded
         if rnd.random() < 0.06 and " " in same:
             s = same.replace(" ", rnd.choice(["  ", "\t", "   "]), 1)               # several blanks inside a phrase
+        # every syntactic position a phrase can stand in: under a cast (compatible target or not), under a cast that is an
+        # operand itself, under a power, as a function argument, in braces, behind a sign-like operator
+        c = rnd.random()
+        if c < 0.14:
+            s = "%s to %s" % (s, rnd.choice(CAST_TARGETS))
+        elif c < 0.18:
+            s = "(%s to %s) * %s" % (rnd.choice(phrases), rnd.choice(CAST_TARGETS), operand())
+        elif c < 0.22:
+            s = "%s to %s to %s" % (rnd.choice(phrases), rnd.choice(CAST_TARGETS), rnd.choice(CAST_TARGETS))
+        elif c < 0.25:
+            s = "(%s) ^ %d" % (s, rnd.choice([2, 3, -1, 0]))
+        elif c < 0.28:
+            s = "%s(%s)" % (rnd.choice(["floor", "ceil", "round", "sin", "nosuchfunction"]), s)
+        elif c < 0.30:
+            s = "{%s} * 2" % rnd.choice(phrases)
+        elif c < 0.32:
+            s = "0 - %s" % s
         out.append(s)
     return out
 
